@@ -201,6 +201,9 @@ func (m *Machine) callFunction(fn *ssa.Function, args []Value, caller *Frame) Va
 	}
 	m.stats.Funcs[fi.name] = true
 	m.depth++
+	if m.depth > m.maxDepth {
+		m.maxDepth = m.depth
+	}
 	if m.depth > m.cfg.MaxDepth {
 		panic(&pathEnd{"steplimit", fmt.Sprintf("call depth %d exceeded in %s", m.cfg.MaxDepth, fi.name)})
 	}
